@@ -348,6 +348,17 @@ async fn main(plan: Plan) -> Outcome {
                         }
                     }
                 }
+                // "...and none may still be started": with every pool healthy (no reset
+                // so far in this run) the plan has one target per node, so giving up
+                // with fewer than min(1 + max, nodes) executions started is too early.
+                let resets_so_far = world::world().faults.get(&Fault::Rst).copied().unwrap_or(0);
+                let could_start = if idempotent { (1 + plan.max_spec).min(plan.nodes) } else { 1 };
+                if resets_so_far == 0 && frames.len() < could_start {
+                    out.violation(
+                        "c13.gave_up_early",
+                        format!("call failed after {} executions although {could_start} could be started: {ctx}", frames.len()),
+                    );
+                }
                 if t1 + margin < last_done {
                     out.violation(
                         "c13.returned_before_all_finished",
